@@ -291,6 +291,8 @@ def run_c04(res, tier, seed):
     rng = random.Random(seed)
     n = 2000 if tier == "quick" else 30000
     progs = gen_programs(rng, n)
+    # the same grammar printed the way people write it: no blank where two tokens may touch (`pair.0.name`, `f(x)`, `a|>b`)
+    progs += [(m, gen_gleam.render(m, None, dense=True)) for m, _ in progs[: n // 4]]
     # exhaustive operator pairs and triples over abstract atoms
     ops = [op for lv in gen_gleam.LEVELS for op in lv]
     from gen_gleam import N, T
